@@ -256,8 +256,12 @@ class Run:
         }
         evdir = OUT / "evidence"
         evdir.mkdir(parents=True, exist_ok=True)
-        (evdir / f"{self.pid}.json").write_text(
-            json.dumps(ev, indent=1, ensure_ascii=True, default=repr) + "\n")
+        text = json.dumps(ev, indent=1, ensure_ascii=True, default=repr) + "\n"
+        (evdir / f"{self.pid}.json").write_text(text)
+        # the same record once more under its tier, so that the last thorough run stays on record
+        # when a quick run rewrites <id>.json
+        (evdir / self.tier).mkdir(parents=True, exist_ok=True)
+        (evdir / self.tier / f"{self.pid}.json").write_text(text)
 
         for ln in lines:
             print(ln)
